@@ -209,7 +209,7 @@ def part_I(ctx, files):
     from fieldcompare import FieldDataSequence
     from fieldcompare.io.vtk import PVDReader
     cases, gots, withc = [], [], []
-    for _ in range(ctx.scale(400, 20000)):
+    for _ in range(ctx.scale(2000, 40000)):
         n = rng.choice([1, 1, 2, 3, 4, 5, 6, 7, 8, 0])
         cur0 = rng.choice([0, 0, 1, n, n + 3, rng.randint(0, n + 1)])
         G, hist, style = gen_hist(rng, n)
@@ -221,7 +221,7 @@ def part_I(ctx, files):
         if seq.number_of_steps != n:
             ctx.violation(case, seq.number_of_steps, n, what="number_of_steps")
         cases.append(case); gots.append(got); withc.append(True)
-    for k in range(ctx.scale(120, 3000)):
+    for k in range(ctx.scale(300, 4000)):
         n = rng.choice([1, 2, 3, 4, 5, 6, 7, 8])
         G, hist, style = gen_hist(rng, n)
         path = files.pvd([(s, 0) for s in range(n)])
@@ -375,7 +375,7 @@ def check_cmp(ctx, case, got, rep):
 def part_M(ctx):
     rng = ctx.rng
     cases, tags = [], []
-    for _ in range(ctx.scale(1500, 60000)):
+    for _ in range(ctx.scale(5000, 100000)):
         c, t = gen_cmp_case(rng)
         cases.append(c); tags.append(t)
     # systematic: deviating step at every position, every length, every option combination
@@ -566,7 +566,7 @@ def part_F(ctx, files):
     rng = ctx.rng
     maxn = 8
     cases, tags = [], []
-    for _ in range(ctx.scale(220, 12000)):
+    for _ in range(ctx.scale(500, 12000)):
         c, t = gen_file_case(rng, maxn)
         cases.append(c); tags.append(t)
     # systematic: equal lengths 1..8, the deviating step at every position (value deviation), no options
